@@ -1,6 +1,7 @@
 import XModel.ManagerFrame
 import XModel.ManagerC13
 import XModel.ManagerC13Fn
+import XModel.ManagerC13b
 import XProofs.Properties.C01
 /-!
 # C13 — generated setter functions are equivalent to assigning through the manager
@@ -14,7 +15,12 @@ container tree (and the same definitions and indices).  The proof: both end with
 both only ever write argument locations and triggered targets (`Store.Reach`), values at triggered targets are
 unique along the dependency order, and a tree reached by such writes is determined by its values there
 (`Store.Reach.eq_of_agree`, the normal form of `XModel/StoreNF.lean`).  `C13_listing`: the listing has each
-triggered task once, exactly the downstream ones, producers first (C02).  Outside the theorems: `exec` of the
+triggered task once, exactly the downstream ones, producers first (C02).  `C13_equivalent` assumes that both runs
+complete; `C13_manager_completes_implies_generated_completes` needs only the manager's completion (the generated
+function's follows), and `C13_converse_fails_witness` shows that the other direction is false: the manager re-evaluates
+the definitions on INTERMEDIATE argument vectors (after each single assignment), which may raise although the final
+vector does not.  "Any argument values" therefore means: argument lists the manager itself can assign one by one.
+Outside the theorems: `exec` of the
 printed source (C11's parser assumption); division by zero is excluded by the property.
 
 **Which tree.**  The model transcribes `/repo` as it stands now: the pinned commit plus the `fix:` commits recorded in
@@ -130,10 +136,80 @@ theorem C13_equivalent_function_tasks_decided (schedG schedS : Sched) (s : MStat
     sG.store = sS.store ∧ sG.defs = sS.defs ∧ sG.idx = sS.idx :=
   execGen_equiv_assignAllF_decided schedG schedS s args hi hsc hc hvG hvS sG hG sS hS
 
-/-- one argument: the generated function IS the manager's assignment up to the schedule, and with function tasks the
-    second completes whenever the first does -/
+/-- one argument, any task kinds, SAME scheduler on both sides: the generated function is literally the tail
+    `write + run_tasks` of the manager's `set_value` (an unfolding identity, all outcomes included).  Nothing is said
+    here about different schedules or about completion; that is `C13_single_argument_function_tasks_indep`. -/
 theorem C13_single_argument_function_tasks (sched : Sched) (s : MState) (p : Path) (v : Val) :
     execGen sched s [(p, v)] = writeAndRun sched s p v :=
   execGen_single sched s p v
+
+/-- one argument, expression and function tasks, two DIFFERENT legal orders: if the generated function completes under
+    one legal order of its listing, then `write + run_tasks` through the manager completes under any legal schedule,
+    with the same container tree, definitions, indices, freeze flag, knob memory and fault flag.  (`hexist`: the item
+    targets of the triggered tasks exist beforehand.) -/
+theorem C13_single_argument_function_tasks_indep (schedG schedS : Sched) (s : MState) (p : Path) (v : Val)
+    (hi : MInv s) (sc : ScopeF s p)
+    (hvsG : ValidSched (gOf s.idx) (findTaskids s.idx (chainR p)) (schedG (findTaskids s.idx (chainR p))))
+    (hvsS : ValidSched (gOf s.idx) (findTaskids s.idx (chainR p)) (schedS (findTaskids s.idx (chainR p))))
+    (hexist : ∀ t ∈ s.defs, t.id ∈ findTaskids s.idx (chainR p) → ∀ it ∈ itemsOf t, ∃ w, get s.store it.target = .ok w)
+    (sG : MState) (hG : execGen schedG s [(p, v)] = (sG, none)) :
+    ∃ sS, writeAndRun schedS s p v = (sS, none) ∧ sS.store = sG.store ∧ sS.defs = sG.defs ∧ sS.idx = sG.idx ∧
+      sS.frozen = sG.frozen ∧ sS.prev = sG.prev ∧ sS.faultIn = sG.faultIn :=
+  execGen_single_indepF schedG schedS s p v hi sc hvsG hvsS hexist sG hG
+
+/-! ### completion: which of the two runs may be assumed to complete
+
+`C13_equivalent` assumes that both runs complete.  Only one of the two assumptions is needed, and it has to be the
+manager's: -/
+
+/-- **the manager's sequence of assignments completes ⇒ the generated function completes, with the same result**
+    (expression-task managers, the hypotheses of `C13_equivalent` minus `hG`).  The generated function evaluates each
+    triggered expression once, on the final argument values; all its reads have the values of the manager's final
+    state, where every definition evaluates without error. -/
+theorem C13_manager_completes_implies_generated_completes (schedG schedS : Sched) (s : MState)
+    (args : List (Path × Val)) (hi : MInv s) (hc : Consistent s) (gs : GenScope s args)
+    (hvsG : ValidSched (gOf s.idx) (findTaskids s.idx (argDeps args)) (schedG (findTaskids s.idx (argDeps args))))
+    (hvsS : ∀ a ∈ args, ValidSched (gOf s.idx) (findTaskids s.idx (chainR a.1)) (schedS (findTaskids s.idx (chainR a.1))))
+    (sS : MState) (hS : assignAll schedS s args = (sS, none)) :
+    ∃ sG, execGen schedG s args = (sG, none) ∧ sG.store = sS.store ∧ sG.defs = sS.defs ∧ sG.idx = sS.idx :=
+  assignAll_completes_execGen schedG schedS s args hi hc gs hvsG hvsS sS hS
+
+/-- the same with every hypothesis but the manager's completion a Boolean test -/
+theorem C13_manager_completes_implies_generated_completes_decided (schedG schedS : Sched) (s : MState)
+    (args : List (Path × Val)) (hi : MInv s) (hsc : genScopeB s args = true) (hc : consistentB s = true)
+    (hvG : validSchedule s.idx (argDeps args) (schedG (findTaskids s.idx (argDeps args))) = true)
+    (hvS : argSchedsB schedS s args = true)
+    (sS : MState) (hS : assignAll schedS s args = (sS, none)) :
+    ∃ sG, execGen schedG s args = (sG, none) ∧ sG.store = sS.store ∧ sG.defs = sS.defs ∧ sG.idx = sS.idx :=
+  assignAll_completes_execGen_decided schedG schedS s args hi hsc hc hvG hvS sS hS
+
+/-- **the converse FAILS.**  `c = a + b`, `e = c * a`, `b` holds `2^1024`; arguments `a := NaN`, `b := 1`.  Every
+    hypothesis of `C13_equivalent` other than completion holds, the generated function completes (it evaluates
+    `NaN + 1`), the manager's sequence of assignments raises `OverflowError` at its first step (it evaluates
+    `NaN + 2^1024`, as Python does: "int too large to convert to float").  So "called with any argument values" holds
+    for the generated function on argument lists on which the manager itself fails at an intermediate state. -/
+theorem C13_converse_fails_witness :
+    MInv C13bWitness.base2 ∧ Consistent C13bWitness.base2 ∧ GenScope C13bWitness.base2 C13bWitness.args2 ∧
+    ValidSched (gOf C13bWitness.base2.idx) (findTaskids C13bWitness.base2.idx (argDeps C13bWitness.args2))
+      (id (findTaskids C13bWitness.base2.idx (argDeps C13bWitness.args2))) ∧
+    (∀ a ∈ C13bWitness.args2, ValidSched (gOf C13bWitness.base2.idx) (findTaskids C13bWitness.base2.idx (chainR a.1))
+      (id (findTaskids C13bWitness.base2.idx (chainR a.1)))) ∧
+    (∃ sG, execGen id C13bWitness.base2 C13bWitness.args2 = (sG, none)) ∧
+    (∃ sS, assignAll id C13bWitness.base2 C13bWitness.args2 = (sS, some .overflow)) :=
+  converse_fails
+
+/-- hence no theorem "the generated function completes ⇒ the manager's assignments complete" under these hypotheses -/
+theorem C13_converse_fails :
+    ¬ (∀ (schedG schedS : Sched) (s : MState) (args : List (Path × Val)), MInv s → Consistent s → GenScope s args →
+      ValidSched (gOf s.idx) (findTaskids s.idx (argDeps args)) (schedG (findTaskids s.idx (argDeps args))) →
+      (∀ a ∈ args, ValidSched (gOf s.idx) (findTaskids s.idx (chainR a.1)) (schedS (findTaskids s.idx (chainR a.1)))) →
+      ∀ sG, execGen schedG s args = (sG, none) → ∃ sS, assignAll schedS s args = (sS, none)) :=
+  not_execGen_completes_assignAll
+
+/-- the witness state is this file's `base` after `d['b'] = 2**1024` -/
+example : C13bWitness.base = base ∧ C13bWitness.da = Properties.C01.da ∧ C13bWitness.db = Properties.C01.db ∧
+    C13bWitness.base2 = (setValue id C13bWitness.base C13bWitness.db (.int C13bWitness.big)).1 ∧
+    C13bWitness.big = 2 ^ 1024 ∧ C13bWitness.args2 = [(C13bWitness.da, .nan), (C13bWitness.db, .int 1)] :=
+  ⟨rfl, rfl, rfl, rfl, by decide +kernel, rfl⟩
 
 end Properties.C13
